@@ -7,7 +7,9 @@ import (
 	"strconv"
 	"strings"
 
+	"rare/pkg/expressions"
 	"rare/pkg/expressions/funclib"
+	"rare/pkg/stringSplitter"
 )
 
 // C17, specification-level ops (the Lean side answers from Spec/C17*.lean only, see Drv/C17.lean):
@@ -56,6 +58,29 @@ func c17SpecRun(f []string) (string, bool) {
 		return "ok " + c17ListView(string(UnHex(s[i+5:]))), true
 	case "spec":
 		return c17Spec(f[1:]), true
+	case "mkarray": // expressions.MakeArray(values...) against `pack`
+		if len(f) != 2 {
+			return "bad-args", true
+		}
+		return "ok " + HexS(expressions.MakeArray(UnHexListS(f[1])...)), true
+	case "splitterok": // drain with NextOk, then one more Next on the finished splitter
+		if len(f) != 3 {
+			return "bad-args", true
+		}
+		sp := stringSplitter.Splitter{S: string(UnHex(f[1])), Delim: string(UnHex(f[2]))}
+		var out []string
+		for i, limit := 0, len(sp.S)+3; ; i++ {
+			if i > limit {
+				return "hang", true
+			}
+			v, ok := sp.NextOk()
+			if !ok {
+				break
+			}
+			out = append(out, v)
+		}
+		after := sp.Next()
+		return fmt.Sprintf("ok %s after=%s done=%v", HexListS(out), HexS(after), sp.Done()), true
 	}
 	return "", false
 }
@@ -117,6 +142,12 @@ func c17Spec(f []string) string {
 				return "ok 0"
 			}
 			return "ok " + v
+		}
+	case f[0] == "words" && len(f) == 3:
+		// {select s i}: word selection (NUL is one of its delimiters); the Lean side answers from Spec/C17Sel.lean
+		v, bad = c17Eval("{select {0} "+f[2]+"}", []string{string(UnHex(f[1]))})
+		if bad == "" {
+			return "ok " + HexS(v)
 		}
 	case f[0] == "reduce" && len(f) == 4:
 		id, err := strconv.Atoi(f[2])
@@ -273,5 +304,103 @@ func c17SpecGen(r *Rand, tier string) []string {
 	}
 	// more terms than MAX_ITERATIONS: the closed form says <INF> without iterating
 	out = append(out, "spec range 0 1000001 1", "spec range 7 1000008 1", "spec range 5 -9223372036854775808 -3")
+	out = append(out, c17WordsGen(r, g, tier)...)
+	return out
+}
+
+// {select} (word selection) next to {@select}, and the kfJoin family tab / $ / @:
+//   spec words <s> <i>     the real {select {0} i} against `selectWord` of Spec/C17Sel.lean (quote-free s)
+//   expr …                 {select}/{tab} pointed at arrays, through the model of funcsStrings.go
+func c17WordsGen(r *Rand, g *c17Gen, tier string) []string {
+	n := 150
+	if tier == "thorough" {
+		n = 5000
+	}
+	var out []string
+	alpha := []string{"a", "b", "ab", " ", " ", "\t", "\n", "\x00", "\x00", "é", "世", "x1", "-"}
+	idx := func() string {
+		if r.Chance(1, 10) {
+			return Pick(r, []string{"9223372036854775807", "-9223372036854775808", "99", "-1"})
+		}
+		return strconv.Itoa(r.Range(-2, 7))
+	}
+	for i := 0; i < n; i++ {
+		var s string
+		switch r.Intn(4) {
+		case 0: // an array as the generator makes them (empty elements, elements with blanks)
+			s = strings.Join(g.list(), "\x00")
+		case 1: // plain elements only: here {select} and {@select} agree for i >= 0
+			m := r.Range(1, 6)
+			parts := make([]string, m)
+			for j := range parts {
+				parts[j] = Pick(r, []string{"a", "b", "ab", "é", "世", "10", "-3", "x,y"})
+			}
+			s = strings.Join(parts, Pick(r, []string{"\x00", " ", "\t", "\n"}))
+		default: // delimiter runs, leading and trailing delimiters
+			for j, m := 0, r.Intn(9); j < m; j++ {
+				s += Pick(r, alpha)
+			}
+		}
+		if r.Chance(1, 12) {
+			s = Pick(r, []string{"\"", "\"a b\"", "a\"b c\"d", "\"a\x00b\" c"}) + s // quotes: model only (`unmodelled quoted` at spec level)
+		}
+		out = append(out, fmt.Sprintf("spec words %s %s", HexS(s), idx()))
+		// the same string through both selections and the model of funcsStrings.go
+		switch r.Intn(6) {
+		case 0:
+			out = append(out, ExprCase(r.Bool(), "{select {0} "+idx()+"}", []string{s}, nil))
+		case 1:
+			out = append(out, ExprCase(r.Bool(), "{select {0} {1}}", []string{s, idx()}, nil))
+		case 2:
+			k := idx()
+			out = append(out, ExprCase(r.Bool(), "{eq {select {0} "+k+"} {@select {0} "+k+"}}", []string{s}, nil))
+		case 3:
+			out = append(out, ExprCase(r.Bool(), "{select {tab {0} {1} "+g.lit()+"} "+idx()+"}", []string{g.word(), g.word()}, nil))
+		case 4:
+			out = append(out, ExprCase(r.Bool(), "{@select {@split {tab {0} {1} "+g.lit()+"} \"\t\"} "+idx()+"}", []string{g.word(), g.word()}, nil))
+		default:
+			parts := []string{Pick(r, []string{"{tab", "{$", "{@"})}
+			for j, m := 0, r.Intn(5); j < m; j++ {
+				parts = append(parts, Pick(r, []string{"{0}", "{1}", g.lit(), "{@ a b}", "{tab x y}"}))
+			}
+			out = append(out, ExprCase(r.Bool(), strings.Join(parts, " ")+"}", []string{g.word(), strings.Join(g.list(), "\x00")}, nil))
+		}
+	}
+	// MakeArray and Splitter.NextOk (no helper calls them; the commands and other packages do)
+	for i := 0; i < n/3; i++ {
+		out = append(out, "mkarray "+HexListS(g.list()))
+		dl := strings.Trim(Pick(r, c17Delims), "\"")
+		parts := g.list()
+		if r.Chance(1, 4) {
+			for j := range parts {
+				parts[j] += dl[:r.Intn(len(dl)+1)]
+			}
+		}
+		out = append(out, fmt.Sprintf("splitterok %s %s", HexS(strings.Join(parts, dl)), HexS(dl)))
+	}
+	out = append(out, "mkarray .", "mkarray -", "mkarray -;-", "splitterok - 61", "splitterok 61 61", "splitterok 6161 6161")
+	if tier == "thorough" {
+		// every string over {a, blank, NUL, quote} up to length 5 x every index -1..5 (quotes: through the model)
+		var strs []string
+		var rec func(cur string)
+		rec = func(cur string) {
+			strs = append(strs, cur)
+			if len(cur) < 5 {
+				for _, c := range []string{"a", " ", "\x00", "\""} {
+					rec(cur + c)
+				}
+			}
+		}
+		rec("")
+		for si, s := range strs {
+			for k := -1; k <= 5; k++ {
+				if strings.Contains(s, "\"") {
+					out = append(out, ExprCase(si%2 == 0, fmt.Sprintf("{select {0} %d}", k), []string{s}, nil))
+				} else {
+					out = append(out, fmt.Sprintf("spec words %s %d", HexS(s), k))
+				}
+			}
+		}
+	}
 	return out
 }
